@@ -5,6 +5,12 @@
      NET k (1 LIN act off nin nout)*k | params | X | C  -> the same keys (net_eval / net_eval_batch / net_back)
      NRM n off | params | X | C                         -> OK np= rt= eb= e1=
      CLS off nin nout nb bias.. | params | X            -> OK np= rt= eb= e1=
+     CONV act H W C F fh fw pad | params | X | C        -> OK np= rt= eb= e1= wpd= wid= wdp= wdi=   (C04Conv.v: conv_set / conv_eval_batch /
+                                                           conv_eval / conv_wpd / conv_wid / conv_wd, index-level model of Conv2DModel)
+     POOL H W C ph pw | | X | C                         -> OK np=0 rt= eb= e1= wpd= wid= wdp= wdi=   (C04Pool.v: pool_eval_batch / pool_eval / pool_wid)
+     RESIZE H W C oh ow | | X | C                       -> the same keys (C04Pool.v: resize_eval_batch / resize_eval / resize_wid; the sample
+                                                           points, B-spline weights and clamped indices are computed by the model from
+                                                           float division / floor passed as function arguments)
    every other model kind (monitored only, not modelled in Coq) -> SKIP *)
 open C04_model
 
@@ -123,6 +129,45 @@ let () =
               let e1 = List.map (classifier_eval z fadd fmul ltb ly bias) x in
               let ci v = String.concat "," (List.map (fun n -> string_of_int (int_of_nat n)) v) in
               Printf.sprintf "OK np=%d rt=%s eb=%s e1=%s" np (csv (lin_params ly)) (ci eb) (ci e1)
+            | "CONV" ->
+              let a = i 1 in
+              let g = { gC = nat_of_int (i 4); gF = nat_of_int (i 5); gH = nat_of_int (i 2); gW = nat_of_int (i 3);
+                        gfh = nat_of_int (i 6); gfw = nat_of_int (i 7); gpad = (i 8 <> 0) } in
+              let no = int_of_nat (conv_nout g) in
+              let cs = List.map fos (toks seg.(3)) in
+              let c = if no = 0 then List.init b (fun _ -> []) else chunks no cs in
+              let np = int_of_nat (conv_nparams g) in
+              let m = conv_set z g (act_of a) params in
+              let eb = conv_eval_batch z fadd fmul m x in
+              let e1 = List.map (conv_eval z fadd fmul m) x in
+              let wpd = conv_wpd z fadd fmul m x c in
+              let wid = conv_wid z fadd fmul m x c in
+              let (wdp, wdi) = conv_wd z fadd fmul m x c in
+              Printf.sprintf "OK np=%d rt=%s eb=%s e1=%s wpd=%s wid=%s wdp=%s wdi=%s" np (csv (conv_params m))
+                (csv (List.concat eb)) (csv (List.concat e1)) (csv wpd) (csv (List.concat wid)) (csv wdp) (csv (List.concat wdi))
+            | "POOL" ->
+              let g = { pH = nat_of_int (i 1); pW = nat_of_int (i 2); pC = nat_of_int (i 3); pph = nat_of_int (i 4); ppw = nat_of_int (i 5) } in
+              let no = int_of_nat (pool_nout g) in
+              let cs = List.map fos (toks seg.(3)) in
+              let c = if no = 0 then List.init b (fun _ -> []) else chunks no cs in
+              let ltb a b = a < b in
+              let eb = pool_eval_batch z ltb g x in
+              let e1 = List.map (pool_eval z ltb g) x in
+              let wid = pool_wid z fadd ltb g x c in
+              Printf.sprintf "OK np=0 rt= eb=%s e1=%s wpd= wid=%s wdp= wdi=%s" (csv (List.concat eb)) (csv (List.concat e1))
+                (csv (List.concat wid)) (csv (List.concat wid))
+            | "RESIZE" ->
+              let g = { rH = nat_of_int (i 1); rW = nat_of_int (i 2); rC = nat_of_int (i 3); roh = nat_of_int (i 4); row_ = nat_of_int (i 5) } in
+              let no = int_of_nat (resize_nout g) in
+              let cs = List.map fos (toks seg.(3)) in
+              let c = if no = 0 then List.init b (fun _ -> []) else chunks no cs in
+              let ofnat n = float_of_int (int_of_nat n) in
+              let floorn v = nat_of_int (int_of_float (Float.floor v)) in
+              let eb = resize_eval_batch z fadd fmul fsub fdiv Float.neg ofnat floorn g x in
+              let e1 = List.map (resize_eval z fadd fmul fsub fdiv Float.neg ofnat floorn g) x in
+              let wid = resize_wid z fadd fmul fsub fdiv Float.neg ofnat floorn g c in
+              Printf.sprintf "OK np=0 rt= eb=%s e1=%s wpd= wid=%s wdp= wdi=%s" (csv (List.concat eb)) (csv (List.concat e1))
+                (csv (List.concat wid)) (csv (List.concat wid))
             | _ -> "SKIP"
           with Failure m -> "MODELERR " ^ m | Invalid_argument m -> "MODELERR " ^ m | Not_found -> "MODELERR notfound"
         in
